@@ -45,21 +45,22 @@ var scenarios []*Scn
 func reg(s *Scn) { scenarios = append(scenarios, s) }
 
 type scnResult struct {
-	Name        string            `json:"name"`
-	Execs       int               `json:"execs"`
-	Steps       int               `json:"steps"`
-	States      int               `json:"states"`
-	Pruned      int               `json:"pruned"`
-	Horizons    int               `json:"horizons"`
-	Deadlocks   int               `json:"deadlocks"`
-	Crashes     int               `json:"crashes"`
-	CapHit      bool              `json:"cap_hit"`
-	Bound       int               `json:"bound"`
-	Outcomes    map[string]int    `json:"outcomes"`
-	OutcomeSamp map[string]string `json:"-"`
-	Viol        []*ev.Violation   `json:"violations"`
-	Sample      []string          `json:"sample_log"`
-	SampleSched []int             `json:"sample_schedule"`
+	Name         string            `json:"name"`
+	Execs        int               `json:"execs"`
+	Steps        int               `json:"steps"`
+	States       int               `json:"states"`
+	Pruned       int               `json:"pruned"`
+	Horizons     int               `json:"horizons"`
+	Deadlocks    int               `json:"deadlocks"`
+	Crashes      int               `json:"crashes"`
+	CapHit       bool              `json:"cap_hit"`
+	Inconclusive bool              `json:"inconclusive"`
+	Bound        int               `json:"bound"`
+	Outcomes     map[string]int    `json:"outcomes"`
+	OutcomeSamp  map[string]string `json:"-"`
+	Viol         []*ev.Violation   `json:"violations"`
+	Sample       []string          `json:"sample_log"`
+	SampleSched  []int             `json:"sample_schedule"`
 }
 
 type replayDoc struct {
@@ -182,6 +183,8 @@ func scenariosFor(prop string) []*Scn {
 }
 
 type job struct {
+	Mode     string  `json:"mode"` // "" = explore the prefixes; "expand" = breadth-first expansion from the root
+	Want     int     `json:"want"`
 	Prop     string  `json:"prop"`
 	Scenario string  `json:"scenario"`
 	Bound    int     `json:"bound"`
@@ -229,6 +232,7 @@ func merge(dst, src *scnResult, idx map[string]*ev.Violation) {
 	dst.Deadlocks += src.Deadlocks
 	dst.Crashes += src.Crashes
 	dst.CapHit = dst.CapHit || src.CapHit
+	dst.Inconclusive = dst.Inconclusive || src.Inconclusive
 	for k, v := range src.Outcomes {
 		dst.Outcomes[k] += v
 	}
@@ -273,6 +277,10 @@ func main() {
 		if err := json.NewDecoder(os.Stdin).Decode(&j); err != nil {
 			fmt.Fprintln(os.Stderr, err)
 			os.Exit(2)
+		}
+		if j.Mode == "expand" {
+			json.NewEncoder(os.Stdout).Encode(runExpand(&j))
+			return
 		}
 		json.NewEncoder(os.Stdout).Encode(runJob(&j))
 		return
@@ -340,13 +348,6 @@ func main() {
 	var all []*scnResult
 	exhaustive := true
 	for _, sc := range scs {
-		// determinism self-check: the default schedule twice
-		a := vrt.Run(nil, sc.Body, nil)
-		b := vrt.Run(nil, sc.Body, nil)
-		if hashLog(a) != hashLog(b) || len(a.Trace) != len(b.Trace) {
-			fmt.Fprintf(os.Stderr, "sched: scenario %s is not deterministic under replay (checker error)\n  %v\n  %v\n", sc.Name, a.Log, b.Log)
-			os.Exit(2)
-		}
 		B := boundOf(sc, tier)
 		total := newRes(sc, B)
 		idx := map[string]*ev.Violation{}
@@ -404,7 +405,7 @@ func main() {
 		} else if t.Bound == -2 {
 			bc = "none"
 		}
-		per = append(per, map[string]interface{}{"scenario": t.Name, "executions": t.Execs, "scheduling_steps": t.Steps, "distinct_states": t.States, "pruned_prefixes": t.Pruned, "distinct_observation_logs": len(t.Outcomes), "preemption_bound_completed": bc, "cap_hit": t.CapHit, "horizon_hits": t.Horizons, "executions_ending_in_deadlock": t.Deadlocks, "executions_with_thread_panic": t.Crashes})
+		per = append(per, map[string]interface{}{"scenario": t.Name, "executions": t.Execs, "scheduling_steps": t.Steps, "distinct_states": t.States, "pruned_prefixes": t.Pruned, "distinct_observation_logs": len(t.Outcomes), "deviation_bound_completed": bc, "cap_hit": t.CapHit, "inconclusive_worker_failure": t.Inconclusive, "horizon_hits": t.Horizons, "executions_ending_in_deadlock": t.Deadlocks, "executions_with_thread_panic": t.Crashes})
 		if len(samples) < 4 {
 			samples = append(samples, map[string]interface{}{"scenario": t.Name, "schedule": t.SampleSched, "observation_log": t.Sample})
 		}
@@ -417,7 +418,7 @@ func main() {
 	r.Cov["traces_validated_against_impl"] = execs
 	r.Cov["evaluations"] = execs
 	r.Cov["distinct_nontrivial"] = outcomes
-	r.Cov["rule"] = "every schedule of each closed scenario within the preemption bound (iteratively 0,1,..,B; 'unbounded' = all schedules) is executed on the transformed real gldap code under the controlled scheduler; happens-before-equivalent prefixes are pruned by fingerprint; states = distinct HB fingerprints at choice points, transitions = scheduling steps, distinct_nontrivial = distinct observation logs (order of handler/close/OnClose/Stop/Run events) summed over scenarios"
+	r.Cov["rule"] = "every schedule of each closed scenario within the deviation bound (delay bounding: a deviation is any scheduling choice other than the default 'keep running the current thread, else the enabled thread with the lowest id'; bounds 0,1,..,B are completed in order; 'unbounded' = all schedules) is executed on the transformed real gldap code under the controlled scheduler; happens-before-equivalent prefixes are pruned by fingerprint; states = distinct HB fingerprints at choice points, transitions = scheduling steps, distinct_nontrivial = distinct observation logs (order of handler/close/OnClose/Stop/Run events) summed over scenarios"
 	r.Cov["samples"] = samples
 	r.Cov["scenarios"] = per
 	r.Cov["exhaustive"] = exhaustive
@@ -431,25 +432,77 @@ func main() {
 
 // exploreSharded expands the tree in-process until there are enough pending prefixes, then explores the
 // subtrees in child processes.
+type expandOut struct {
+	Res     *scnResult `json:"res"`
+	Pending [][]int    `json:"pending"`
+	NonDet  string     `json:"nondeterministic,omitempty"`
+}
+
+// runExpand (child): determinism self-check on the default schedule, then breadth-first expansion.
+func runExpand(j *job) *expandOut {
+	sc := findScn(j.Scenario)
+	a := vrt.Run(nil, sc.Body, func(s *vrt.Sched) { s.MaxPts = maxPts(sc) })
+	b := vrt.Run(nil, sc.Body, func(s *vrt.Sched) { s.MaxPts = maxPts(sc) })
+	if hashLog(a) != hashLog(b) || len(a.Trace) != len(b.Trace) {
+		return &expandOut{NonDet: fmt.Sprintf("default schedule run twice gives different observations:\n  %v\n  %v", a.Log, b.Log)}
+	}
+	total := newRes(sc, j.Bound)
+	idx := map[string]*ev.Violation{}
+	e := &vrt.Explorer{Body: sc.Body, Bound: j.Bound, Prune: false, MaxPts: sc.MaxPts}
+	if j.Deadline > 0 {
+		e.Deadline = time.Unix(j.Deadline, 0)
+	}
+	e.OnExec = func(x *vrt.Sched, ch []int) { evaluate(j.Prop, sc, x, ch, total, idx) }
+	pending := e.Expand(j.Want)
+	total.Execs, total.Steps, total.Horizons, total.CapHit = e.Execs, e.Steps, e.Horizons, e.CapHit
+	return &expandOut{Res: total, Pending: pending}
+}
+
+func maxPts(sc *Scn) int {
+	if sc.MaxPts > 0 {
+		return sc.MaxPts
+	}
+	return 200000
+}
+
+func runChild(j *job, out interface{}) error {
+	cmd := exec.Command(os.Args[0], "child")
+	in, _ := json.Marshal(j)
+	cmd.Stdin = strings.NewReader(string(in))
+	cmd.Stderr = os.Stderr
+	cmd.Env = append(os.Environ(), "GOMAXPROCS=1")
+	b, err := cmd.Output()
+	if err != nil {
+		return err
+	}
+	return json.Unmarshal(b, out)
+}
+
+// exploreSharded: a child process expands the tree until there are enough pending prefixes, then the
+// subtrees are explored in parallel child processes. The parent never executes scenario code itself, so
+// a scenario that blocks natively (watchdog) or crashes only makes its own subtrees inconclusive.
 func exploreSharded(prop string, sc *Scn, bound int, deadline time.Time) *scnResult {
 	total := newRes(sc, bound)
 	idx := map[string]*ev.Violation{}
-	e := &vrt.Explorer{Body: sc.Body, Bound: bound, Prune: false, MaxPts: sc.MaxPts, Deadline: deadline}
-	e.OnExec = func(x *vrt.Sched, ch []int) { evaluate(prop, sc, x, ch, total, idx) }
 	ncpu := runtime.NumCPU()
 	want := 4 * ncpu
 	if bound >= 0 && bound <= 1 {
-		want = 1 << 30 // small: stay in-process
+		want = 1 << 30 // small: one process
 	}
-	defer func() {
-		if r := recover(); r != nil {
-			fmt.Fprintf(os.Stderr, "sched: checker error in scenario %s (bound %d): %v\n", sc.Name, bound, r)
-			os.Exit(2)
-		}
-	}()
-	pending := e.Expand(want)
-	total.Execs, total.Steps, total.Horizons, total.CapHit = e.Execs, e.Steps, e.Horizons, e.CapHit
-	if len(pending) == 0 || e.CapHit {
+	var eo expandOut
+	if err := runChild(&job{Mode: "expand", Want: want, Prop: prop, Scenario: sc.Name, Bound: bound, Deadline: deadline.Unix()}, &eo); err != nil {
+		fmt.Fprintf(os.Stderr, "sched: scenario %s (bound %d): worker failed (%v): inconclusive\n", sc.Name, bound, err)
+		total.CapHit = true
+		total.Inconclusive = true
+		return total
+	}
+	if eo.NonDet != "" {
+		fmt.Fprintf(os.Stderr, "sched: scenario %s is not deterministic under replay (checker error): %s\n", sc.Name, eo.NonDet)
+		os.Exit(2)
+	}
+	merge(total, eo.Res, idx)
+	pending := eo.Pending
+	if len(pending) == 0 || total.CapHit {
 		return total
 	}
 	// distribute round-robin into 2*ncpu jobs
@@ -473,19 +526,15 @@ func exploreSharded(prop string, sc *Scn, bound int, deadline time.Time) *scnRes
 			defer wg.Done()
 			sem <- struct{}{}
 			defer func() { <-sem }()
-			cmd := exec.Command(os.Args[0], "child")
-			in, _ := json.Marshal(j)
-			cmd.Stdin = strings.NewReader(string(in))
-			cmd.Stderr = os.Stderr
-			cmd.Env = append(os.Environ(), "GOMAXPROCS=1")
-			out, err := cmd.Output()
 			var res scnResult
+			err := runChild(j, &res)
 			mu.Lock()
 			defer mu.Unlock()
-			if err != nil || json.Unmarshal(out, &res) != nil {
+			if err != nil {
 				// a worker that died (watchdog, OOM) makes the run inconclusive for its subtrees, never a violation
 				fmt.Fprintf(os.Stderr, "sched: worker for %s failed (%v): subtrees inconclusive\n", sc.Name, err)
 				total.CapHit = true
+				total.Inconclusive = true
 				return
 			}
 			merge(total, &res, idx)
